@@ -227,6 +227,8 @@ def run(run, model):
     from . import c05, common
     run.do(c05.pos_table, model, "C18.args-table", "C18.posonly")
     run.do(common.truth_rule, model, "C18.truth")
+    from . import effects
+    run.do(effects.no_memo, model, "C18.no-memo")
     # what the dunders list is what is enforced: evaluating the listed contracts by hand gives the checker's verdict
     for role, ck in gates.checkers(model).items():
         for kind, depth in (("PRE", 2), ("POST", 1)):
